@@ -112,25 +112,18 @@ def run_case(case):
             if d:
                 return fail("view_value_after_assignment", f"after step {si} ({op['kind']}): {d}", f"{op['kind']}|{c01.diff_key(d)}", labels)
         if pview is not None and not is_raised(pview):
+            # whatever happened in the step (update through another handle, growth of the buffer): the view taken at the
+            # beginning still denotes the same object
+            gp = sut(mat.walk, pview, node)
+            if is_raised(gp):
+                return fail("kept_view_read_raised", f"after step {si} ({op['kind']} via {op['via']}): {gp}", f"{op['kind']}|{gp.key}", labels)
+            d = tg.first_diff(spec, model, gp)
+            if d:
+                return fail("kept_view_value", f"after step {si} ({op['kind']} via {op['via']}): a view taken before the history reads: {d}", f"{op['kind']}|{c01.diff_key(d)}", labels)
+            labels.add("kept_view_checked")
             if op["kind"] == "grow" or obj._buffer.buffer is not storage:
-                # the storage was replaced (explicit growth, or an allocation made by the step): views of the old storage
-                # are not expected to follow
-                pview = sut(mat.view_of, obj)
+                labels.add("kept_view_checked_after_storage_replacement")
                 storage = obj._buffer.buffer
-            elif spec["k"] == "struct" and _root_dynitems(case) and r[1] == []:
-                # a whole-struct update through another handle: struct views copy the field offsets when they are built,
-                # so the kept view is stale - the open known finding (stale cached offsets), seen from the other side
-                labels.add("kept_view_skipped_open_finding")
-                pview = sut(mat.view_of, obj)
-            elif op["via"] == "handle" or not _root_dynitems(case):
-                # (a whole-object update made through ANOTHER view is the open known finding in the other direction)
-                gp = sut(mat.walk, pview, node)
-                if is_raised(gp):
-                    return fail("kept_view_read_raised", f"after step {si} ({op['kind']} via {op['via']}): {gp}", f"{op['kind']}|{gp.key}", labels)
-                d = tg.first_diff(spec, model, gp)
-                if d:
-                    return fail("kept_view_value", f"after step {si} ({op['kind']} via {op['via']}): a view taken before the step reads: {d}", f"{op['kind']}|{c01.diff_key(d)}", labels)
-                labels.add("kept_view_checked")
         attrs1 = sut(snapshot_attrs, obj, node, model)
         if is_raised(attrs1):
             return fail("attribute_raised", f"after step {si}: {attrs1}", attrs1.key, labels)
@@ -155,24 +148,3 @@ def run_case(case):
             return fail("neighbour_changed", f"after step {si} ({op['kind']}): {nv}", op["kind"], labels)
     nontrivial = executed >= 3 and len(vias) >= 2 and bool(labels & {"op:compound_struct", "op:compound_array", "op:grow"})
     return Outcome(True, labels=sorted(labels), nontrivial=nontrivial)
-
-
-# --------------------------------------------------------------------------
-# open known finding: stale item-offset cache of the constructor handle (known_findings.json)
-# --------------------------------------------------------------------------
-
-
-def _root_dynitems(case):
-    """root objects whose handle caches offsets of movable parts: arrays of dynamic items, structs with >= 2 dynamic fields"""
-    sp = case["type"]
-    if sp["k"] == "struct":
-        return sum(1 for _, ft in sp["fields"] if tg.is_dynamic(ft)) >= 2
-    return sp["k"] == "array" and tg.is_dynamic(sp["item"])
-
-
-FINDINGS = {
-    "C10-stale-root-handle": Finding(
-        has_feature=lambda case, out: _root_dynitems(case) and any(op["kind"] == "compound" and op["via"] != "handle" for op in case["ops"]),
-        neutralise=lambda case, out: dict(case, ops=[dict(op, via="handle") if op["kind"] == "compound" else op for op in case["ops"]]),
-    )
-}
